@@ -29,6 +29,9 @@ def cross_check_sm(repo, res, rule="XCHECK"):
     mp = {p for p, f in mir.fns.items() if not f.parent and "<" not in p}
     sp = {q for q in repo.fns if "<" not in q and not q.startswith("build::")}
     sp = {q[5:] if q.startswith("lib::") else q for q in sp}
+    # helpers that engine S reads in place of their calls (vlib/canon.py) exist as functions for the compiler only
+    inl = set(getattr(repo, "inlined_helpers", []) or [])
+    mp = {p for p in mp if p.split("::")[-1] not in inl}
     only_s, only_m = sorted(sp - mp), sorted(mp - sp)
     res.check(not only_s and not only_m, rule, f"{rule}:S-vs-M:functions", f"{len(sp)} free/inherent functions in the syntax trees, {len(mp)} in the MIR of lib + bin" + ("" if not only_s and not only_m else f"; only in S: {only_s[:8]}; only in M: {only_m[:8]}"), "")
 
